@@ -325,7 +325,11 @@ class PluginGroup(Generic[T], metaclass=PluginGroupMeta):
         ret = self._ENTRY_POINTS[ep_name].load()
         self._LOADED_PLUGINS[ref] = ret
 
-        self._load_plugin(ep_name, ret)
+        try:
+            self._load_plugin(ep_name, ret)
+        except Exception:
+            del self._LOADED_PLUGINS[ref]  # a refused plugin does not count as loaded
+            raise
 
     def _explicit_plugin_deps(self, plugin) -> Set[AnyPluginRef]:
         """Return all plugin dependencies that must be taken into account."""
